@@ -203,6 +203,28 @@ def run(ctx: Ctx) -> None:
                 ctx.ob("R10.4", f"parser:CxxParser.{fname}|{c.func.id}(location)", arg is not None and _location_like(pm, fname, arg),
                        msg=f"the location given to {c.func.id} does not come from a token or from current_location()", node=c, mod=mod)
 
+    # ---------------------------------------------------------------- R10.7
+    ctx.rule("R10.7", "in a declarator loop the location handed on is re-assigned on every cycle (each declarator reports its own line)", minimum=2)
+    for fname, fn in pm.methods.items():
+        cfg = pm.cfg(fname)
+        for h in [n for n in cfg.nodes if n.kind == "test" and n.loop is not None]:
+            inside = {id(x) for x in ast.walk(h.loop)}
+            for n in cfg.nodes:
+                if n.stmt is None or id(n.stmt) not in inside:
+                    continue
+                for c, r in pm.node_calls(fname, n):
+                    if not (r and r[0] == "self"):
+                        continue
+                    callee = pm.fn(r[1])
+                    pnames = [a.arg for a in callee.args.args[1:]]
+                    for i, a in enumerate(c.args):
+                        if i < len(pnames) and pnames[i] == "location" and isinstance(a, ast.Name):
+                            defs = [m for m in cfg.nodes if m.kind == "stmt" and isinstance(m.stmt, ast.Assign) and any(isinstance(t, ast.Name) and t.id == a.id for t in m.stmt.targets) and id(m.stmt) in inside]
+                            ok = bool(defs) and not cfg.paths_avoiding(h, h, lambda x: x in defs)
+                            ctx.ob("R10.7", f"parser:CxxParser.{fname}|`{a.id}` for {r[1]}(...) refreshed every iteration", ok,
+                                   msg=f"the loop in {fname} can start another declarator with the `{a.id}` of the previous one: the second declarator of 'int a,\\n b;' reports the first one's line",
+                                   node=c, mod=mod)
+
     # ---------------------------------------------------------------- R10.6
     ctx.rule("R10.6", "a peeked current_location() is followed by the consumption of a token before it is reported", minimum=2)
     may = pm.may_consume()
